@@ -14,6 +14,7 @@ mod parse;
 mod rename;
 mod stbc;
 mod stcore;
+mod stlib;
 mod util;
 mod webide;
 
@@ -32,6 +33,9 @@ fn main() {
         "ctrlauth-gen" => ctrlauth::gen(rest), "ctrlauth-run" => ctrlauth::run(rest),
         "resource-run" => resource::run(rest),
         "stcore-gen" => stcore::gen(rest),
+        "stlib-run" => stlib::run(rest),
+        "stlib-child" => stlib::child(rest),
+        "stlib-confirm" => stlib::confirm_child(rest),
         "stwide" => stcore::wide(rest),
         "stwide-child" => stcore::wide_child(rest),
         "stwide-why" => stcore::wide_why(rest),
